@@ -16,7 +16,7 @@ use crate::oracle::page::total_len;
 use crate::oracle::vsign::*;
 use crate::repr::M;
 
-pub const RULE_C10: &str = "reply scripts over a 42-symbol alphabet (13 state reports x own/foreign address, 6 acknowledgements x own/foreign address - which includes wrong-operation acknowledgements -, no reply, goodbye, an unknown frame, bus error) enumerated exhaustively by systematic re-execution: the operation is re-run on a fresh scripted bus and the script is extended by every symbol whenever the controller asks for one more reply, to the natural end of configure, configure_if_needed, send_pages, show_loaded_page, load_next_page and shut_down (page-switch polling cut at depth 7 quick / 9 thorough), for several sign types and (own, foreign) address pairs; plus proptest random scripts (70 % 'continue' replies) for larger sign types and 1-2 page lists, also as sequences of 2..5 operations on ONE Sign object (each operation's slice of the conversation judged on its own). At every node the emitted message sequence and - at leaves - the outcome class are compared with a reference controller simulation. Non-trivial = a script with at least one reply that is not the happy-path reply; distinct by hash of (operation, configuration, script)";
+pub const RULE_C10: &str = "reply scripts over a 43-symbol alphabet (13 state reports x own/foreign address, 6 acknowledgements x own/foreign address - which includes wrong-operation acknowledgements -, no reply, goodbye, an unknown frame, an echo of the message just sent, bus error - materialised as a plain error, io::Error(Interrupted), FrameError::Io(Interrupted), io TimedOut or WouldBlock depending on the job) enumerated exhaustively by systematic re-execution: the operation is re-run on a fresh scripted bus and the script is extended by every symbol whenever the controller asks for one more reply, to the natural end of configure, configure_if_needed, send_pages, show_loaded_page, load_next_page and shut_down (page-switch polling cut at depth 7 quick / 9 thorough), for several sign types and (own, foreign) address pairs; plus proptest random scripts (70 % 'continue' replies) for larger sign types and 1-2 page lists, also as sequences of 2..5 operations on ONE Sign object (each operation's slice of the conversation judged on its own). At every node the emitted message sequence and - at leaves - the outcome class are compared with a reference controller simulation. Non-trivial = a script with at least one reply that is not the happy-path reply; distinct by hash of (operation, configuration, script)";
 pub const RULE_C11: &str = "the same conversations as C10 (exhaustive reply-script trees by systematic re-execution, random scripts, several addresses and sign types) judged without the reference conversation, by invariants on the transcript: I1 success only after this sign's 'received' report concluded the last transfer attempt, I2 fail-stop after a bus error or a reply the protocol does not allow at that point (with the matching error class), I3 at most three transfer attempts and retries only after this sign's 'failed' report, I4 every emitted addressed message carries the controller's address, I5 reports from another address are never taken as this sign's. Non-trivial = a script with at least one non-happy-path reply; distinct by hash";
 pub const ASSUMPTIONS_C10: &[&str] = &["the reference controller in oracle/controller.rs is a correct reading of the documented protocol (doc comments of configure, configure_if_needed, send_pages, load_next_page, show_loaded_page, shut_down and of the Message kinds)"];
 pub const ASSUMPTIONS_C11: &[&str] = &["the invariants are keyed on local context only (the previous exchange), so they do not depend on the reference conversation of C10"];
@@ -40,8 +40,20 @@ enum OnExhausted {
     Happy,
 }
 
+fn make_bus_error(kind: u8, what: &str) -> Box<dyn std::error::Error + Send + Sync> {
+    use std::io::{Error, ErrorKind};
+    match kind % 5 {
+        1 => Box::new(Error::new(ErrorKind::Interrupted, what.to_string())),
+        2 => Box::new(flipdot_core::FrameError::from(Error::new(ErrorKind::Interrupted, what.to_string()))),
+        3 => Box::new(Error::new(ErrorKind::TimedOut, what.to_string())),
+        4 => Box::new(Error::new(ErrorKind::WouldBlock, what.to_string())),
+        _ => what.to_string().into(),
+    }
+}
+
 struct ScriptBus {
     own: u16,
+    bus_error_kind: u8,
     choices: Vec<Choice>,
     on_exhausted: OnExhausted,
     transcript: Vec<(M, Reply)>,
@@ -87,6 +99,7 @@ impl SignBus for ScriptBus {
             }
         }
         let reply = match self.choices.get(idx) {
+            Some(Choice::Symbol(Reply::Echo)) => Reply::Msg(m.clone()),
             Some(Choice::Symbol(r)) => r.clone(),
             Some(Choice::Happy(v)) => happy_reply(self.own, &m, *v, self.last_transfer_op, after_count),
             None => match self.on_exhausted {
@@ -97,7 +110,7 @@ impl SignBus for ScriptBus {
                         self.exhausted_at = Some(idx);
                     }
                     self.transcript.push((m, Reply::BusError));
-                    return Err("script exhausted".into());
+                    return Err(make_bus_error(self.bus_error_kind, "script exhausted"));
                 }
             },
         };
@@ -105,7 +118,8 @@ impl SignBus for ScriptBus {
         match reply {
             Reply::Msg(r) => Ok(Some(r.to_message())),
             Reply::None => Ok(None),
-            Reply::BusError => Err("scripted bus error".into()),
+            Reply::BusError => Err(make_bus_error(self.bus_error_kind, "scripted bus error")),
+            Reply::Echo => unreachable!("resolved above"),
         }
     }
 }
@@ -121,6 +135,10 @@ pub struct ConvCase {
     pub pages: u8,
     pub page_seed: u64,
     pub script: Vec<Choice>,
+    /// how a scripted bus error is materialised: 0 plain text error, 1 io::Error(Interrupted), 2 FrameError::Io(Interrupted)
+    /// (what the serial bus produces), 3 io::Error(TimedOut), 4 io::Error(WouldBlock)
+    #[serde(default)]
+    pub bus_error_kind: u8,
 }
 
 fn make_pages(c: &ConvCase) -> Vec<Vec<u8>> {
@@ -147,6 +165,7 @@ fn execute_seq(c: &ConvCase, ops: &[OpKind], stop_when_exhausted: bool) -> Resul
     let (sign_type, _, _, w, h) = TYPES[c.sign_type as usize % 11];
     let bus = Rc::new(RefCell::new(ScriptBus {
         own: c.addr,
+        bus_error_kind: c.bus_error_kind,
         choices: c.script.clone(),
         on_exhausted: if stop_when_exhausted { OnExhausted::Stop } else { OnExhausted::Happy },
         transcript: vec![],
@@ -320,6 +339,7 @@ pub fn alphabet(own: u16, foreign: u16) -> Vec<Reply> {
     v.push(Reply::Msg(M::Goodbye(own)));
     v.push(Reply::Msg(M::Unknown { addr: own, ty: 0x4, data: vec![0x07, 0x00] }));
     v.push(Reply::BusError);
+    v.push(Reply::Echo);
     v
 }
 
@@ -396,7 +416,7 @@ fn run_tree(ctx: &Ctx, invariants_only: bool) {
     // split each job by its first reply symbol so that the work spreads over the workers
     let mut units: Vec<(usize, usize)> = vec![];
     for (j, _) in jobs.iter().enumerate() {
-        for s in 0..42 {
+        for s in 0..43 {
             units.push((j, s));
         }
     }
@@ -405,7 +425,7 @@ fn run_tree(ctx: &Ctx, invariants_only: bool) {
         let (j, s) = units[u as usize];
         let (op, t, pages, cap, own, foreign) = jobs[j];
         let alpha = alphabet(own, foreign);
-        let base = ConvCase { op, addr: own, sign_type: t, pages, page_seed: 7 + j as u64, script: vec![] };
+        let base = ConvCase { op, addr: own, sign_type: t, pages, page_seed: 7 + j as u64, script: vec![], bus_error_kind: (j % 5) as u8 };
         let mut ts = TreeStats { nodes: 0, leaves: 0, truncated: 0, max_depth: 0 };
         let mut script = vec![Choice::Symbol(alpha[s].clone())];
         if s == 0 {
@@ -426,7 +446,7 @@ fn run_tree(ctx: &Ctx, invariants_only: bool) {
     ctx.part_done(
         "reply-script-tree",
         g.2 == 0,
-        json!({"jobs": jobs.len(), "alphabet": 42, "nodes": g.0, "complete_conversations": g.1, "truncated_at_depth_cap": g.2, "max_script_length": g.3,
+        json!({"jobs": jobs.len(), "alphabet": 43, "nodes": g.0, "complete_conversations": g.1, "truncated_at_depth_cap": g.2, "max_script_length": g.3,
                "page_switch_depth_cap": switch_depth, "address_pairs": addr_pairs}),
     );
 }
@@ -444,6 +464,7 @@ fn choice_strategy(own: u16) -> impl Strategy<Value = Choice> {
         1 => (foreign, 0u8..6).prop_map(|(a, o)| Choice::Symbol(Reply::Msg(M::Ack(a, o)))),
         1 => Just(Choice::Symbol(Reply::None)),
         1 => Just(Choice::Symbol(Reply::BusError)),
+        1 => Just(Choice::Symbol(Reply::Echo)),
     ]
 }
 
@@ -454,11 +475,12 @@ fn conv_strategy() -> impl Strategy<Value = ConvCase> {
         0u8..11,
         0u8..=2,
         any::<u64>(),
+        0u8..5,
     )
-        .prop_flat_map(|(op, addr, sign_type, pages, page_seed)| {
-            (Just((op, addr, sign_type, pages, page_seed)), proptest::collection::vec(choice_strategy(addr), 0..120))
+        .prop_flat_map(|(op, addr, sign_type, pages, page_seed, kind)| {
+            (Just((op, addr, sign_type, pages, page_seed, kind)), proptest::collection::vec(choice_strategy(addr), 0..120))
         })
-        .prop_map(|((op, addr, sign_type, pages, page_seed), script)| ConvCase { op, addr, sign_type, pages, page_seed, script })
+        .prop_map(|((op, addr, sign_type, pages, page_seed, bus_error_kind), script)| ConvCase { op, addr, sign_type, pages, page_seed, script, bus_error_kind })
 }
 
 pub fn run(ctx: &Ctx, invariants_only: bool) {
@@ -480,6 +502,13 @@ pub fn run(ctx: &Ctx, invariants_only: bool) {
         },
         |c, st| check_sequence(c, invariants_only, st),
     );
+    run_logged(ctx, invariants_only);
+}
+
+pub fn run_logged(ctx: &Ctx, invariants_only: bool) {
+    crate::engine::with_logging(|| {
+        run_generated(ctx, "random-scripts+logging", ctx.tier.pick(15_000, 300_000), conv_strategy, |c, st| check_conversation(c, invariants_only, st));
+    });
 }
 
 pub fn replay(part: &str, case: &Value, invariants_only: bool) -> Result<(), String> {
@@ -488,6 +517,9 @@ pub fn replay(part: &str, case: &Value, invariants_only: bool) -> Result<(), Str
         return check_sequence(&c, invariants_only, &mut Stats::new());
     }
     let c: ConvCase = serde_json::from_value(case.clone()).map_err(|e| format!("bad case: {e}"))?;
+    if part == "random-scripts+logging" {
+        return crate::engine::with_logging(|| check_conversation(&c, invariants_only, &mut Stats::new()));
+    }
     if part == "reply-script-tree" {
         // node of the systematic tree: exhaustion stops the conversation
         let run = execute(&c, true)?;
